@@ -158,8 +158,9 @@ static Outcome encode_to_sink(const std::string& json_text, size_t capacity, int
     Outcome o;
     try {
         ojson j = ojson::parse(json_text);
-        sim::SimOutbuf ob(capacity, kind);
+        sim::SimOutbuf ob(capacity, kind > 2 ? kind - 2 : kind);
         std::ostream os(&ob);
+        if (kind > 2) os.exceptions(std::ios::badbit | std::ios::failbit);
         if (variant % 3 == 0) j.dump(os);
         else if (variant % 3 == 1) j.dump_pretty(os);
         else { json_stream_encoder enc(os); j.dump(enc); enc.flush(); }
